@@ -168,6 +168,10 @@ func getRanger(v reflect.Value) (r Ranger, cleanup func(), err error) {
 		return nil, nil, fmt.Errorf("cannot range over nil pointer/interface (%s)", t)
 	}
 
+	if v.Kind() == reflect.Chan && v.Type().ChanDir()&reflect.RecvDir == 0 {
+		return nil, nil, fmt.Errorf("cannot range over send-only channel (%s)", t)
+	}
+
 	pool, ok := poolsByKind[v.Kind()]
 	if !ok {
 		return nil, nil, fmt.Errorf("value %v (type %s) is not rangeable", v, t)
